@@ -20,14 +20,17 @@ variable {env : Env}
 mutual
   /-- The class of values the C06 theorems quantify over (decidable): any nesting of atoms, plain or
   symbolic lists, dicts whose keys are pairwise different under `==` — **in any order** —, objects
-  whose attributes are the declared fields of their class (`env.fields c`, any declaration order),
+  whose attributes are the declared fields of their class (`env.fields c`, any declaration order) or
+  — for a class with a variable-key schema (`env.dyn c`) — pairwise different keys in any order,
   tuples of numbers only (`num = true`) or of strings only (`num = false`). -/
   def wellFormed (env : Env) (num : Bool) : Val → Bool
     | .atom _ => true
     | .list _ xs => wellFormedList env num xs
     | .tuple xs => xs.all (tupleElemOk num)
     | .dict _ kvs => nodupAtoms (keysOf kvs) && wellFormedItems env num kvs
-    | .obj c kvs => keysOk env (some (env.fields c)) kvs && wellFormedItems env num kvs
+    | .obj c kvs =>
+        (if env.dyn c then nodupAtoms (keysOf kvs) else keysOk env (some (env.fields c)) kvs)
+        && wellFormedItems env num kvs
   def wellFormedList (env : Env) (num : Bool) : List Val → Bool
     | [] => true
     | x :: xs => wellFormed env num x && wellFormedList env num xs
@@ -95,7 +98,12 @@ mutual
     | obj c kvs =>
       simp only [comparable, Bool.and_eq_true] at hx
       simp only [wellFormed, Bool.and_eq_true]
-      exact ⟨hx.1, comparableItems_wellFormed ok num kvs hx.2⟩
+      refine ⟨?_, comparableItems_wellFormed ok num kvs hx.2⟩
+      have h1 := hx.1
+      cases hd : env.dyn c
+      · simpa [objSh, hd] using h1
+      · simp only [objSh, hd, if_true] at h1 ⊢
+        exact nodup_of_asc ok kvs h1
   termination_by structural x
   theorem comparableList_wellFormed (ok : EnvOk env) (num : Bool) (xs : List Val)
       (hx : comparableList env num xs = true) : wellFormedList env num xs = true := by
@@ -219,10 +227,15 @@ mutual
     | obj c kvs =>
       simp only [wellFormed, Bool.and_eq_true] at hx
       simp only [canon, comparable, Bool.and_eq_true]
-      refine ⟨?_, wfItems_canon ok num kvs hx.2⟩
-      have := hx.1
-      simp only [keysOk, keysOf_canonItems] at this ⊢
-      exact this
+      have h1 := hx.1
+      cases hd : env.dyn c
+      · simp only [hd, Bool.false_eq_true, if_false, objSh] at h1 ⊢
+        refine ⟨?_, wfItems_canon ok num kvs hx.2⟩
+        simp only [keysOk, keysOf_canonItems] at h1 ⊢
+        exact h1
+      · simp only [hd, if_true, objSh, keysOk] at h1 ⊢
+        refine ⟨sortItems_sorted ok _ (by rw [keysOf_canonItems]; exact h1), ?_⟩
+        exact comparableItems_perm (sortItems_perm _).symm (wfItems_canon ok num kvs hx.2)
   termination_by structural x
   theorem wfList_canon (ok : EnvOk env) (num : Bool) (xs : List Val)
       (hx : wellFormedList env num xs = true) : comparableList env num (canonList env xs) = true := by
@@ -398,7 +411,18 @@ mutual
         simp only [wellFormed, Bool.and_eq_true] at hx hy
         simp only [canon]
         rw [eq_obj, eq_obj]
-        simp only [eqD, length_canonItems, keysSubset_canonItems, eqItems_canon num xs ys hx.2 hy.2]
+        by_cases hcd : c = d
+        · subst hcd
+          cases hd : env.dyn c
+          · simp only [Bool.false_eq_true, if_false]
+            simp only [eqD, length_canonItems, keysSubset_canonItems, eqItems_canon num xs ys hx.2 hy.2]
+          · have hn : nodupAtoms (keysOf ys) = true := by simpa [hd] using hy.1
+            simp only [if_true]
+            rw [eqD_perm (sortItems_perm _) (sortItems_perm _)
+              (nodupAtoms_perm (keysOf_perm (sortItems_perm _).symm) (by rw [keysOf_canonItems]; exact hn))]
+            simp only [eqD, length_canonItems, keysSubset_canonItems, eqItems_canon num xs ys hx.2 hy.2]
+        · have : (c == d) = false := by simpa using hcd
+          simp [this]
       | _ => simp [canon, eq]
   termination_by structural x
   theorem eqList_canon (num : Bool) (xs : List Val) : ∀ ys : List Val,
@@ -521,7 +545,11 @@ mutual
       rw [hF.fset_perm _ _ (hItems_perm (sortItems_perm _) H), hashItems_canon hF kvs]
     | obj c kvs =>
       simp only [canon, hT, evalHash, evalHashList]
-      rw [hashItems_canon hF kvs]
+      cases env.dyn c
+      · simp only [Bool.false_eq_true, if_false]
+        rw [hashItems_canon hF kvs]
+      · simp only [if_true]
+        rw [hF.fset_perm _ _ (hItems_perm (sortItems_perm _) H), hashItems_canon hF kvs]
   termination_by structural x
   theorem hashList_canon {H : PyHash} (hF : HashOk H) (xs : List Val) :
       evalHashList H (hList (canonList env xs)) = evalHashList H (hList xs) := by
